@@ -236,7 +236,8 @@ _SKIP = ("_advance", "_accept", "_expect", "_consume")
 
 def outcome(text, trace=False):
     """('ok',) | ('perr', msg, column of the offending token or None (end of
-    input), {column: function that consumed the token there}) | ('rec',) |
+    input), {column: function that consumed the token there} or None for an
+    error raised by the lexer) | ('rec',) |
     ('exc', site, repr).  The consumer map is only filled with trace=True."""
     from pycparser.c_parser import CParser, ParseError
 
@@ -269,7 +270,13 @@ def outcome(text, trace=False):
         msg = str(e)
         m = _LOC.match(msg)
         col = None
-        if m and m.group(1) == "1" and m.group(3).startswith("before: "):
+        lexical = False
+        tb = e.__traceback__
+        while tb is not None:
+            if tb.tb_frame.f_code.co_name == "_lex_error_func":
+                lexical = True
+            tb = tb.tb_next
+        if m and m.group(1) == "1":
             col = int(m.group(2))
         elif "At end of input" not in msg:
             # no position of a token in the message: the token the parser is at
@@ -278,6 +285,10 @@ def outcome(text, trace=False):
                 col = None if t is None else t.column
             except Exception:  # noqa
                 col = None
+        if lexical:
+            # raised by the lexer while the token buffer was being filled: the
+            # parser's own position says nothing about the cause
+            consumers = None
         return ("perr", msg, col, consumers)
     except RecursionError:
         return ("rec",)
@@ -287,7 +298,7 @@ def outcome(text, trace=False):
 
 _PIECE = re.compile(
     r"""(?:u8|[LuU])?"(?:\\.|[^"\\])*"|(?:[LuU])?'(?:\\.|[^'\\])*'|"""
-    r"""\.?[0-9](?:[eEpP][+-]|[0-9A-Za-z_.])*|[A-Za-z_][A-Za-z_0-9]*|"""
+    r"""\.?[0-9](?:[eEpP][+-]|[0-9A-Za-z_.])*|[A-Za-z_$][A-Za-z_0-9$]*|"""
     r"""\.\.\.|<<=|>>=|\+\+|--|->|&&|\|\||<<|>>|<=|>=|==|!=|[-+*/%&|^]=|\S"""
 )
 _KEYWORDS = set(
@@ -319,7 +330,7 @@ def lex_classes(text, sent_start, sent_syms):
             res.append((col, "string"))
         elif "'" in s or re.match(r"\.?[0-9]", s):
             res.append((col, "constant"))
-        elif re.match(r"[A-Za-z_]", s) and s not in _KEYWORDS:
+        elif re.match(r"[A-Za-z_$]", s) and s not in _KEYWORDS:
             res.append((col, "typedef-name/T" if s == "T" else "identifier"))
         else:
             res.append((col, s))
@@ -353,6 +364,7 @@ def signature(text, sent_start=0, sent_syms=None):
     """Signature of a rejection, invariant over the manifestations of one wrong
     turn of the parser:
         reject:<offending token>/<token before it>@<function that consumed that token>
+    (an error raised by the lexer: reject[<message>]:<class of the token there>)
     offending token: its class, or `expr-start` for every class in
     FIRST(expression) (after a wrong turn the parser trips over whatever comes
     next); a message other than 'before: X' / 'At end of input' is added."""
@@ -365,6 +377,11 @@ def signature(text, sent_start=0, sent_syms=None):
         return "RecursionError"
     _, msg, col, consumers = out
     toks = lex_classes(text, sent_start, sent_syms)
+    if consumers is None:  # lexer error: reject[<message>]:<class of the token there>
+        m = _LOC.match(msg)
+        body = m.group(3) if m else msg.lstrip(": ")
+        cls = next((c for k, c in toks if k == col), "?")
+        return "reject[" + re.sub(r"'[^']*'", "'_'", body) + "]:" + cls
     off, prev, who = "?", "?", "?"
     idx = None
     if col is None:
